@@ -18,6 +18,35 @@ claim("C17", "E3", "hypothesis generated multi-image listings vs set intersectio
       "QemuImg and os.listdir/stat substituted as in the selftests; the ramfile per-image backend is a stub; "
       "listing grammar follows qemu-img's columns.")
 
+claim("C14", "E3", "hypothesis sequential PBT on real files; generated multi-process lock fuzz; enumerated fault injection",
+      "Three parts on real temporary directories: (1) generated op sequences (download/upload/delete, local and link "
+      "mode) over generated contents around the 1 MiB hash block and all pre-existing cache/pool/link states, with "
+      "byte-exactness, copy-skipped-iff-identical and link rules as oracle; (2) hypothesis-drawn rounds of 2-8 forked "
+      "processes running op sequences on the same pool file with critical sections recorded by wrapped "
+      "copy/unlink/hash calls: no two sections on one pool file overlap and the result equals a sequential replay; "
+      "(3) an enumerated table of faults inside the critical section (exception at every wrapped call, SIGKILL at "
+      "every wrapped call, holder outliving the timeout). Fault table exhaustive at the wrapped calls; the rest sampled.",
+      "The OS owns the process schedule (windows widened by injected sleeps); crash points only at wrapped calls; "
+      "remote (ssh/scp) transfers not exercised; guard timeouts are harness errors, never violations.",
+      category="fault_enumeration")
+
+claim("C18", "E3", "hypothesis generated networks + stateful allocate/reattach machine vs registry invariant and ipaddress",
+      "Generated networks (1-4 vms x 1-3 nics over disjoint-or-identical IPv4 subnets /8../30, static addresses, DHCP "
+      "ranges) built with the real VMNetwork over stub vm/env objects; registry invariant (every interface in exactly "
+      "one netconfig that lists it under its ip inside the subnet, no duplicate ips) after construction and after "
+      "every allocate/reattach/translate step, allocation = each address of the range once then IndexError, "
+      "netmask/prefix and translate_address against the stdlib ipaddress; prefix lengths 0..32 enumerated.",
+      "Stub env/vm as in the selftests; overlapping subnets of different length, static addresses inside the DHCP "
+      "range, proxy_nic reattachment and reattachment towards an exhausted range are excluded by construction and counted.")
+
+claim("C19", "E3", "exhaustive type product x hypothesis generated networks vs counterpart table and mirror relations",
+      "All 108 combinations of local x remote x peer x auth types (plus 20 unsupported-type rejects) are enumerated; for "
+      "each, generated multi-vm networks and node pairs; the two end points' parameters must mirror each other "
+      "(lan/remote nets, peer addresses, swapped psk ids, documented right-hand counterpart types), unsupported types "
+      "raise ValueError, connects_nodes is symmetric and agrees with a subnet-membership reference.",
+      "Dictionaries in the shape the callers in network.py use (no auth type 'none'); stub env/vm; tunnel names "
+      "without underscores (third-party object_params limitation).")
+
 _pending = "check not built yet in this round (planned in DESIGN.md section 4); not claimed until it runs"
 for _i in range(1, 21):
     _p = f"C{_i:02d}"
